@@ -442,6 +442,8 @@ def main():
             v.setdefault("unshrunk_len", len(v0["script"]))
             v.setdefault("unshrunk_script", list(v0["script"]))
         kkey = oracles.known_key(prop, v, known)
+        if os.environ.get("CHECK_DEBUG"):
+            print("DEBUG %s kind=%s known=%s agrees=%s L=%r K=%r :: %s" % (prop, v["kind"], kkey and kkey["key"], v.get("model_agrees"), v["L"], v["K"], v["detail"][:200].replace("\n", " ")), file=sys.stderr)
         if kkey is not None:
             known_hits.setdefault(kkey["key"], kkey)
             continue
